@@ -109,6 +109,7 @@ type interpreter struct {
 	hraftIndex         int
 	hraftSink          *hraftNode // node whose Snapshot() is being persisted
 	syncMaps           map[*value]*amap // contents of sync.Map values (model)
+	byteBuffers        map[*value]*symStr // contents of bytes.Buffer values (model)
 	freePort           int
 	spinLoads          map[*value]int
 	spinThread         *thread
